@@ -82,6 +82,15 @@ def lookup(root, loc):
     return cur
 
 
+def without(root, loc):
+    """the tree minus everything at and below `loc`"""
+    t = clone(root)
+    par = lookup(t, list(loc[:-1]))
+    if loc and par is not None and par[0] == "d":
+        par[1].pop(loc[-1], None)
+    return t
+
+
 def all_locs(d, pre=()):
     for n in sorted(d):
         v = d[n]
@@ -506,8 +515,9 @@ def okclass(res):
 class Judge:
     """stateful (lines are judged in order): tree before = tree observed after the previous line"""
 
-    def __init__(self, ctx, metas, twin, lines, exe):
+    def __init__(self, ctx, metas, twin, lines, exe, unknown=False):
         self.ctx, self.metas, self.twin, self.lines, self.exe = ctx, metas, twin, lines, exe
+        self.unknown = unknown      # the sandbox lives on a file system whose getdents64 reports DT_UNKNOWN for every entry
         self.i = -1
         self.pre = {}
         self.poisoned = False
@@ -611,6 +621,10 @@ class Judge:
                     return "readdir: iterated something that is not a directory"
                 want = sorted([(4, b"."), (4, b"..")] + [(DT[v[0]], nm) for nm, v in n[1].items()])
                 ys = [] if f["yields"] == "-" else [(int(y.split(":")[0][1:]), C.unhex(y.split(":")[1])) for y in f["yields"].split(",")]
+                if self.unknown:
+                    # the kernel did not say: FileType::Unknown (0) is the honest answer; a definite type must be the right one
+                    exact = {nm: t for t, nm in want}
+                    ys = [(exact[nm] if t == 0 and nm in exact else t, nm) for t, nm in ys]
                 if sorted(ys) != want:
                     names = [y[1] for y in ys]
                     if len(set(names)) != len(names):
@@ -636,7 +650,19 @@ class Judge:
             if dump_b != "same":
                 return "%s: resulting tree differs from std::fs on the twin" % op
             return None
-        # failure: nothing the property forbids by itself; it must be a failure of std::fs as well
+        # failure: nothing the property forbids by itself — except damage: a failed remove_dir_all may have removed part of the tree
+        # it was given, never anything outside it (what links inside the tree point to included)
+        if op == "rmall" and rc == "err" and loc:
+            a, b = without(pre, loc), without(post, loc)
+            if dump(a) != dump(b):
+                gone = [l for l, v in all_locs(a) if lookup(b, l) is None]
+                return "rmall: failed and damaged what lies OUTSIDE the tree it was given (%s)" % (
+                    ("gone: " + b"/".join(gone[0]).decode("latin1")) if gone else "changed")
+        if self.unknown and op == "rmall" and res == "err 21" and sc == "ok":
+            # on a DT_UNKNOWN mount every entry is FileType::Unknown, `.` goes to the plain unlinkat: EISDIR.  Allowed to fail.
+            self.ctx.hist("dtype_unknown_rmall", "EISDIR, nothing outside touched")
+            return None
+        # ... and it must be a failure of std::fs as well
         if rc == "err" and sc == "ok" and not self.diverged:
             return "%s: Err(%s) where std::fs succeeds" % (op, res.split()[1] if len(res.split()) > 1 else "?")
         return None
@@ -656,7 +682,10 @@ class Judge:
             return None if not res.startswith("ok") else "readdirs: iterated something that is not a directory"
         recs = parse_recs(w[2])
         want = sorted([(4, b"."), (4, b"..")] + [(DT[v[0]], nm) for nm, v in n[1].items()])
-        if sorted(recs) != want:
+        if self.unknown:
+            if sorted(nm for _, nm in recs) != sorted(nm for _, nm in want) or any(t != 0 for t, _ in recs):
+                return None
+        elif sorted(recs) != want:
             return None            # the recorded kernel order does not describe this directory: no evidence
         exp, end = split_spec(recs, w[3])
         if not res.startswith("ok "):
@@ -798,6 +827,107 @@ def run_malformed(ctx, exe, sandbox, n_sessions):
 
 
 # ------------------------------------------------------------------ run
+
+def run_unknown_mount(ctx, exe, drv, thorough):
+    """the same streams on a file system whose getdents64 reports DT_UNKNOWN for every entry: a 16 MiB ext2 image made without
+    the `filetype` feature, loop-mounted inside a PRIVATE mount namespace of the harness process (`unshare -m`): the mount and
+    its loop device (autoclear) disappear with that process, whatever happens to this check."""
+    import shutil
+    key = "dtype_unknown_mount"
+    if os.geteuid() != 0:
+        ctx.extra[key] = "not runnable here: not root"
+        return
+    missing = [t for t in ("mke2fs", "mount", "unshare", "sh") if not shutil.which(t)]
+    if missing:
+        ctx.extra[key] = "not runnable here: no " + ", ".join(missing)
+        return
+    base = "/tmp/c14.%08x.%d" % (ctx.rng.below(2**32), os.getpid())
+    img, mnt = base + ".img", base + ".mnt"
+    try:
+        os.makedirs(mnt, exist_ok=True)
+        with open(img, "wb") as f:
+            f.truncate(16 << 20)
+        # ^dir_index: a linear directory (`.`, `..`, then creation order), the order the model's directory stream has
+        rc, out = C.sh(["mke2fs", "-q", "-t", "ext2", "-O", "^filetype,^dir_index", img])
+        if rc != 0:
+            ctx.extra[key] = "not runnable here: mke2fs failed: " + out.strip()[-200:]
+            return
+        wrap = ["unshare", "-m", "sh", "-c", 'mount -o loop "$0" "$1" && shift 2 && exec "$@"', img, mnt]
+        sandbox = (mnt + "/sA").encode()
+        g = Gen(ctx, sandbox)
+        probe = ["init " + H(sandbox), "tree D6161 U F6262:- L6363:6262", "readdir " + H(sandbox), "end"]
+        rc, outs, err = C.run_filter(wrap + [exe], probe, timeout=120)
+        if len(outs) != len(probe) or not outs[2].startswith("ok recs="):
+            ctx.extra[key] = "not runnable here: loop mount failed: " + (err.strip().splitlines() or ["?"])[-1][:200]
+            return
+        recs = parse_recs(outs[2].split()[1][5:])
+        if any(t != 0 for t, _ in recs):
+            ctx.extra[key] = "not runnable here: the mounted ext2 fills in d_type (%s)" % outs[2].split()[1][:60]
+            return
+        ctx.extra[key] = ("ext2 image (mke2fs -O ^filetype,^dir_index) loop-mounted in a private namespace; probe: getdents64 d_type = "
+                          "DT_UNKNOWN for all %d records (%s)" % (len(recs), outs[2].split()[1][5:]))
+        flat = (False, False, False, 0)
+        metas = [("init " + H(sandbox), "init", (), None, None)]
+        for s_ in range(24 if not thorough else 120):
+            t = g.session_tree(0, long_ok=(s_ % 3 == 0))
+            t[b"onlylinks"] = ("d", {b"l1": ("l", b"../tgt_dir"), b"l2": ("l", b"../tgt_file"), b"l3": ("l", b"../nothing")})
+            metas.append(("tree " + " ".join(dump_tokens(t)), "tree", (), None, None))
+            for loc in ((b"victim",), (b"victim", b"dd"), (b"onlylinks",), ()):
+                p = b"/".join(loc) if loc else sandbox
+                metas.append(("readdir " + H(p), "readdir", loc, None, flat))
+                metas.append(("readdirs " + H(p), "readdirs", loc, None, flat))
+            for p_, loc in ((b"victim/dd/ff/x", (b"victim", b"dd", b"ff", b"x")), (b"victim/dd/sk/", (b"victim", b"dd", b"sk")),
+                            (b"tgt_blk", (b"tgt_blk",)), (b"victim/dd/new/dir/", (b"victim", b"dd", b"new", b"dir"))):
+                metas.append(("mkdirall " + H(p_), "mkdirall", loc, None, flat, "obstacle:unknown-mount"))
+            metas += g.ops(t, 8 if not thorough else 20)
+            # last (a failed remove_dir_all leaves the twin behind): trees holding links to directories / files outside them
+            for loc in ((b"onlylinks",), (b"victim", b"dd"), (b"victim",)):
+                metas.append(("rmall " + H(b"/".join(loc)), "rmall", loc, None, flat))
+        metas.append(("end", "end", (), None, None))
+        lines = [m[0] for m in metas]
+        rc, twin, errtxt = C.run_filter(wrap + [exe, "--twin"], lines, timeout=900)
+        if len(twin) != len(lines):
+            idx = len(twin)
+            ctx.violation({"stream": "fs-dtype-unknown", "kind": "impl-crash"},
+                          {"case": lines[idx][:300] if idx < len(lines) else None, "impl_rc": rc, "stderr_tail": errtxt.splitlines()[-5:]})
+            return
+        for i, (l, o) in enumerate(zip(lines, twin)):
+            if l.startswith("readdir ") and o.startswith("ok recs="):
+                lines[i] = l + " " + o.split()[1][5:]
+            elif l.startswith("readdir "):
+                lines[i] = l + " t0:2e"
+            elif l.startswith("readdirs ") and o.startswith("ok recs="):
+                recs = o.split()[1][5:]
+                split, mode, term = gen_split(ctx.rng, parse_recs(recs))
+                lines[i] = "%s %s %s" % (l, recs, split)
+                metas[i] = metas[i][:5] + ((mode, term),)
+            elif l.startswith("readdirs "):
+                lines[i] = l + " t0:2e g"
+        keep = [i for i, o in enumerate(twin) if o != "bad-op"]
+        metas = [metas[i] for i in keep]
+        lines = [lines[i] for i in keep]
+        twin = [twin[i] for i in keep]
+        judge = Judge(ctx, metas, twin, lines, " ".join(wrap[:4]) + " '" + wrap[4] + "' " + " ".join(wrap[5:]) + " " + exe, unknown=True)
+        C.correspond(ctx, "fs-dtype-unknown", lines, wrap + [exe], [drv, "--dtype-unknown"], judge, sig_of, timeout=900)
+        for m, o in zip(metas, twin):
+            if m[1] in ("init", "end", "tree"):
+                continue
+            res = o.split(" | ")[0]
+            cls = okclass(res) + ("" if okclass(res) != "err" else ":" + (res.split()[1] if len(res.split()) > 1 else "?"))
+            ctx.hist("dtype_unknown_outcomes", m[1] + ":" + cls)
+            ctx.count(("dtype-unknown", m[1], cls) + tuple(m[4] or ()))
+    finally:
+        # the mount itself lives and dies with the harness processes; only the image and the mount point are ours
+        for p_ in (img,):
+            try:
+                os.unlink(p_)
+            except OSError:
+                pass
+        try:
+            os.rmdir(mnt)
+        except OSError:
+            pass
+
 
 def directed_lines(g):
     """the shapes of DESIGN §4 #14/#15 and the 512 / PATH_MAX boundaries, always present"""
@@ -1019,6 +1149,7 @@ def run(ctx):
             ctx.hist("getdents_calls_per_readdir", min(len(f["calls"].split(",")), 50))
     for m, o in list(zip(metas, twin))[66:72]:
         ctx.sample({"case": m[0][:160], "implementation_and_std": o[:200]})
+    run_unknown_mount(ctx, exe, drv, thorough)
     run_malformed(ctx, exe, sandbox, 12 if not thorough else 60)
     # never leave anything behind
     for suffix in (b"A", b"B"):
